@@ -184,24 +184,45 @@ def ops_script(ops):
 
 SEM_ASSUME = ['Boolean models; constraints purely propositional over feature names',
               'exact counts are brute force over all 2^n selections, n <= family bound']
-prop('C13', ['Tree', 'TreeStar', 'TreeCtc'], naming_matters=False, assumptions=SEM_ASSUME)(ops_script(['estimate']))
-prop('C14', ['Tree', 'TreeStar', 'TreeCtc'], naming_matters=False, assumptions=SEM_ASSUME)(ops_script(['core']))
-prop('C15', ['Tree', 'TreeStar', 'TreeCtc'], naming_matters=False, assumptions=SEM_ASSUME)(ops_script(['atomic']))
-prop('C16', ['Tree', 'TreeStar', 'DecorAbs'], naming_matters=False,
-     assumptions=['corpus models above the TLC size bound are judged on scalar summaries only'])(
-    ops_script(['leaves', 'count_leaves', 'depth', 'abf', 'varpoints', 'ancestors']))
+prop('C13', ['Tree', 'TreeStar', 'TreeCtc', 'Big'], naming_matters=False, assumptions=SEM_ASSUME)(ops_script(['estimate']))
+prop('C14', ['Tree', 'TreeStar', 'TreeCtc', 'Big'], naming_matters=False, assumptions=SEM_ASSUME)(ops_script(['core']))
+prop('C15', ['Tree', 'TreeStar', 'TreeCtc', 'Big'], naming_matters=False, assumptions=SEM_ASSUME)(ops_script(['atomic']))
+C16_OPS = ['leaves', 'count_leaves', 'depth', 'abf', 'varpoints', 'ancestors']
 
 
-# ---------------------------------------------------------------------------
-@prop('C18', ['Ast', 'AstDeep'], name_classes=('casepair',), naming_matters=True, name_stride={'quick': 8, 'thorough': 2},
-      assumptions=['equivalence is decided by complete truth tables over the atoms of the tree'])
-def script_c18(case, naming, tier, seed):
-    from flamapy.core.models.ast import AST
-    from flamapy.metamodels.fm_metamodel.models import Constraint
-    from build import build_node
-    ctc = Constraint('c1', AST(build_node(case['ast'], naming)))
-    ret = observe.classify(ctc, naming)
-    return [{'a': 'Classify', 'args': {'ast': case['ast']}, 'out': 'value', 'ret': ret}], {'ast': case['ast']}
+def prepare_c16(cases, tier, seed):
+    out = list(cases)
+    for i, f in enumerate(corpus_files(tier, seed)):
+        out.append(('Corpus-%05d' % i, {'corpus': f, 'tags': ['corpus']}))
+    return out
+
+
+def script_c16(case, naming, tier, seed):
+    if 'corpus' not in case:
+        return ops_script(C16_OPS)(case, naming, tier, seed)
+    ev, model = formats.corpus_event(case['corpus'], None, FULL_BOUND[tier])
+    events = [ev]
+    if ev['out'] != 'value':
+        return events, {'key': case['corpus'], 'nontrivial': True}
+    if ev['args']['full']:
+        nm = names.identity_naming()
+        nm.abs = formats.project_name
+        objid = 0
+        feats = []
+        stack = [model.root]
+        while stack:
+            f = stack.pop()
+            feats.append(f)
+            for r in f.relations:
+                stack.extend(r.children)
+        for op in C16_OPS:
+            targets = [None] if op != 'ancestors' else [feats[0], feats[-1], feats[len(feats) // 2]]
+            for t in targets:
+                objid += 1
+                events.append(observe.exec_op(observe.new_op(op), objid, op, model, nm, t))
+    else:
+        events.append(observe.exec_big(model, None))
+    return events, {'key': case['corpus'], 'nontrivial': True}
 
 
 # ---------------------------------------------------------------------------
@@ -723,9 +744,22 @@ def script_c02(case, naming, tier, seed):
         wev, path, _ = formats.write_event(fmt, b.model, nm)
         events = [ev, wev]
         if wev['out'] == 'value':
-            rev, _ = formats.read_event(fmt, path, nm)
+            rev, model2 = formats.read_event(fmt, path, nm)
             events.append(rev)
+            if rev['out'] == 'value' and model2 is not None and not rev['anom']:
+                # every operation must be able to traverse what the reader built
+                k = 0
+                for op in ['estimate', 'core', 'atomic', 'leaves', 'count_leaves', 'depth', 'abf', 'varpoints', 'metrics']:
+                    k += 1
+                    ev2 = (observe.exec_metrics(observe.new_op(op), 500 + k, model2, nm, with_agree=False) if op == 'metrics'
+                           else observe.exec_op(observe.new_op(op), 500 + k, op, model2, nm))
+                    ev2['args']['ctx'] = 'afterread'
+                    events.append(ev2)
         if os.path.exists(path):
             os.remove(path)
         return events, {'key': ['rt', fmt], 'nontrivial': True}
     return script_c09(case, naming, tier, seed)
+
+
+prop('C16', ['Tree', 'TreeStar', 'DecorAbs', 'Big'], naming_matters=False, prepare=prepare_c16,
+     assumptions=['corpus models above the TLC size bound are judged on the mutual agreement of scalar results only'])(script_c16)
